@@ -132,4 +132,31 @@ Proof.
   intros e. rewrite (gen_index_participants_equiv e []), keys_model.
   apply (TV.proofs.ValidateIP.ip_NoDup (fun _ l => ord_set l) (fun _ l => ord_perm l)).
 Qed.
+(** [Assignment.index_participants] (target merged with the right-hand side) *)
+Theorem gen_assignment_index_participants_equiv : forall n idx e,
+  GD.ex_assignment_index_participants ord_set (GD.ExAssignment (GD.ExTensor n idx) e)
+  = lift_ip (EA.assignment_index_participants (fun _ l => ord_set l)
+               (EA.Assignment (EA.TRef n idx) (cA e))).
+Proof.
+  intros n idx e. unfold GD.ex_assignment_index_participants, EA.assignment_index_participants. cbv zeta.
+  cbn [EA.a_target EA.a_expr EA.t_name EA.t_indexes].
+  rewrite (gen_index_participants_equiv e [true]).
+  replace (GD.Expression_index_participants ord_set (GD.ExTensor n idx))
+    with (lift_ip (EA.tensor_ip n idx 0 [])) by (symmetry; apply (tensor_model n idx 0 [])).
+  unfold EA.merge_ip. rewrite !keys_model, set_display_model. unfold lift_ip at 3. rewrite map_map. apply map_ext.
+  intros k. cbn [fst snd]. rewrite !get_or_model, union_model. reflexivity.
+Qed.
+
+Theorem gen_assignment_index_names_summary : forall n idx e k,
+  In k (map fst (GD.ex_assignment_index_participants ord_set (GD.ExAssignment (GD.ExTensor n idx) e)))
+  <-> In k (TV.gen.Desugar.assignment_index_names (GD.ExAssignment (GD.ExTensor n idx) e)).
+Proof.
+  intros n idx e k. rewrite gen_assignment_index_participants_equiv, keys_model.
+  unfold EA.assignment_index_participants. cbn [EA.a_target EA.a_expr EA.t_name EA.t_indexes].
+  rewrite (TV.proofs.ValidateIP.merge_keys_In (fun _ l => ord_set l) (fun _ l => ord_perm l)).
+  rewrite (TV.proofs.ValidateIP.tensor_ip_keys), (TV.proofs.ValidateIP.ip_keys_indexes (fun _ l => ord_set l) (fun _ l => ord_perm l)).
+  rewrite occurrences_indexes. unfold TV.gen.Desugar.assignment_index_names.
+  cbn [GD.ex_assignment_target GD.ex_assignment_expression TV.gen.Desugar.index_names EA.akeys map].
+  rewrite in_app_iff. simpl. tauto.
+Qed.
 End Oracle.
